@@ -1190,7 +1190,7 @@ impl<'a, 'b> Gen<'a, 'b> {
 
     /// one small design element around one or two items of a family that full programs reach rarely
     pub fn focus_text(&mut self) {
-        let which = self.t.below(15);
+        let which = self.t.below(17);
         match which {
             12 | 13 => self.description_more2(),
             0 => self.udp_declaration(),
@@ -1216,6 +1216,17 @@ impl<'a, 'b> Gen<'a, 'b> {
                         9 => self.enum_struct_variable(),
                         10 => self.generate_construct(1),
                         14 => self.misc_module_item3(true),
+                        15 | 16 => {
+                            // the statement and expression forms of part 6
+                            self.tag("focus-stmt-more2");
+                            self.kw("initial");
+                            self.kw("begin");
+                            let k = 1 + self.t.below(3);
+                            for _ in 0..k {
+                                self.stmt_more2();
+                            }
+                            self.kw("end");
+                        }
                         _ => self.gate_instantiation(),
                     }
                 }
